@@ -38,6 +38,13 @@ FORMULA_RULES = ("R3.fourier", "R3.msm", "R3.likelihood", "R3.gsl", "R3.minkowsk
                  "R1.reward", "R4.system", "R3.formula", "R3.moments", "R2.wrapper", "R3.confine", "R6.pairing", "R6.identity", "R3.shock-count")
 
 
+#: new callees that do not make a mismatch doubtful: functions that change a value in a way no restatement needs (tolerances, extrema, rounding, sorting, reductions).
+#: A formula that now goes through one of these and no longer matches is reported.
+VALUE_CHANGING = {"isclose", "allclose", "min", "max", "minimum", "maximum", "amin", "amax", "nanmin", "nanmax", "nanmean", "nansum", "floor", "ceil", "trunc", "rint", "fix", "abs", "fabs",
+                  "absolute", "sqrt", "log", "log2", "log10", "exp", "sort", "sorted", "argsort", "unique", "median", "nan_to_num", "finfo", "sum", "mean", "std", "var", "any", "all", "round",
+                  "around", "sign", "cumsum", "cumprod", "prod"}
+
+
 class Context:
     """Collects obligations for one property on one program."""
 
@@ -90,7 +97,7 @@ class Context:
             # the rule could not find the construct it reports on (the `?` stands for what it looked for): that is a reading failure, not a finding
             raise AnalysisError(f"rule {rule} could not read the construct at {key}: {message[:160]}")
         if os.environ.get("SA_NEW_CALLEE_GATE", "1") != "0" and f is not None and rule.startswith(FORMULA_RULES):
-            nc = (getattr(self.prog, "alignment", None) or {}).get("new_callees", {}).get(f.qualname)
+            nc = [x for x in (getattr(self.prog, "alignment", None) or {}).get("new_callees", {}).get(f.qualname, []) if x not in VALUE_CHANGING]
             if nc:
                 raise AnalysisError(f"{f.qualname.split(':')[1]} now calls {nc[:4]}, which its reference version does not; what rule {rule} found there may be a reading failure")
         limit = int(os.environ.get("SA_RESTATED_LIMIT", "0") or 0)
